@@ -264,12 +264,15 @@ fn main() {
                 #[cfg(not(feature = "min"))]
                 "rt" => rt::generate(seed, &tier, false).into_iter().map(|v| v.to_string()).collect(),
                 #[cfg(not(feature = "min"))]
+                "rt_faults" => rt::generate(seed, &tier, false).into_iter().filter(|v| matches!(util::gs(v, "phase"), "resume" | "rst-close" | "rst-length" | "rst-chunked")).map(|v| v.to_string()).collect(),
+                #[cfg(not(feature = "min"))]
                 "rt_release" => rt::generate(seed, &tier, true).into_iter().map(|v| v.to_string()).collect(),
                 #[cfg(not(feature = "min"))]
                 "mpart" => mpart::generate(seed, &tier).into_iter().map(|v| v.to_string()).collect(),
                 "c07_req" => sendloop::generate(seed, &tier).into_iter().map(|v| v.to_string()).collect(),
                 #[cfg(not(feature = "min"))]
                 "charset_split" => charset::generate(seed, &tier).into_iter().map(|v| v.to_string()).collect(),
+                "happy_late" => happy::generate_late().into_iter().map(|v| v.to_string()).collect(),
                 "hostile" => hostile::generate(seed, &tier).into_iter().map(|v| v.to_string()).collect(),
                 "h_large" => head::generate(seed, &tier).into_iter().map(|v| v.to_string()).collect(),
                 _ => genx::generate(&family, seed, &tier),
